@@ -85,7 +85,7 @@ def run_case(case, ctx):
     lid = spies.new_log()
     try:
         rng = np.random.default_rng([case["dseed"], 88])
-        y = zoo.make_series(rng, case["n"], positive=True, off=case["off"], kind=case["series"])
+        y = zoo.make_series(rng, case["n"], positive=True, off=case["off"], kind=case["series"], integer=case["dseed"] % 5 == 0)
         cv = zoo.build_cv(case["cv"])
         scoring = zoo.build_metric(case["scoring"])
         metric = scoring if scoring is not None else M.MeanAbsolutePercentageError()
@@ -103,8 +103,12 @@ def run_case(case, ctx):
             except Exception:  # noqa
                 candidates = None
         fh = case["cv"][1]["fh"]
-        with parallel_backend("threading"):
+        # n_jobs=2: threads (recording forecasters keep their log) or joblib's default worker processes
+        procs = case["n_jobs"] == 2 and case["dseed"] % 2 == 0 and spec[0] != "spy-naive"
+        import contextlib
+        with (contextlib.nullcontext() if procs else parallel_backend("threading")):
             ok, _ = ctx.call("tune:fit-exception", tuner.fit, y.copy(), fh=fh)
+        ctx.tag("backend:" + ("processes" if procs else "threads" if case["n_jobs"] == 2 else "sequential"))
         if not ok:
             return
         res = tuner.cv_results_
